@@ -372,41 +372,70 @@ class ConstEval:
         return Unknown(type(node).__name__)
 
     def _comprehension(self, mod, node, env, local):
-        if len(node.generators) != 1:
-            return Unknown("nested comprehension")
-        gen = node.generators[0]
-        if gen.is_async or not isinstance(gen.target, ast.Name):
-            return Unknown("comprehension target")
-        it = self.eval(mod, gen.iter, env, local)
-        if isinstance(it, Unknown):
-            return it
-        try:
-            items = list(it)
-        except TypeError:
-            return Unknown("comprehension iterable")
-        if len(items) > 100000:
-            return Unknown("comprehension too large")
         out_d, out_l = PDict(), []
-        for x in items:
-            loc = dict(local or {})
-            loc[gen.target.id] = x
-            ok = True
-            for cond in gen.ifs:
-                c = self.eval(mod, cond, env, loc)
-                if isinstance(c, Unknown):
-                    return c
-                ok = ok and bool(c)
-            if not ok:
-                continue
-            if isinstance(node, ast.DictComp):
-                k = self.eval(mod, node.key, env, loc)
-                v = self.eval(mod, node.value, env, loc)
-                if isinstance(k, Unknown):
-                    return k
-                out_d[k] = v
-                out_d.prov[k] = (mod, node.lineno)
-            else:
-                out_l.append(self.eval(mod, node.elt, env, loc))
+        budget = [200000]
+
+        def bind(target, value, loc):
+            if isinstance(target, ast.Name):
+                loc[target.id] = value
+                return True
+            if isinstance(target, (ast.Tuple, ast.List)):
+                try:
+                    vals = list(value)
+                except TypeError:
+                    return False
+                if len(vals) != len(target.elts):
+                    return False
+                return all(bind(t, v, loc) for t, v in zip(target.elts, vals))
+            return False
+
+        def rec(gi, loc):
+            if gi == len(node.generators):
+                if isinstance(node, ast.DictComp):
+                    k = self.eval(mod, node.key, env, loc)
+                    v = self.eval(mod, node.value, env, loc)
+                    if isinstance(k, Unknown):
+                        return k
+                    try:
+                        out_d[k] = v
+                    except TypeError:
+                        return Unknown("unhashable key")
+                    out_d.prov[k] = (mod, node.lineno)
+                else:
+                    out_l.append(self.eval(mod, node.elt, env, loc))
+                return None
+            gen = node.generators[gi]
+            if gen.is_async:
+                return Unknown("async comprehension")
+            it = self.eval(mod, gen.iter, env, loc)
+            if isinstance(it, Unknown):
+                return it
+            try:
+                items = list(it.items()) if False else list(it)
+            except TypeError:
+                return Unknown("comprehension iterable")
+            for x in items:
+                budget[0] -= 1
+                if budget[0] < 0:
+                    return Unknown("comprehension too large")
+                loc2 = dict(loc)
+                if not bind(gen.target, x, loc2):
+                    return Unknown("comprehension target")
+                ok = True
+                for cond in gen.ifs:
+                    c = self.eval(mod, cond, env, loc2)
+                    if isinstance(c, Unknown):
+                        return c
+                    ok = ok and bool(c)
+                if ok:
+                    r = rec(gi + 1, loc2)
+                    if r is not None:
+                        return r
+            return None
+
+        r = rec(0, dict(local or {}))
+        if r is not None:
+            return r
         if isinstance(node, ast.DictComp):
             return out_d
         if isinstance(node, ast.SetComp):
@@ -416,38 +445,182 @@ class ConstEval:
                 return Unknown("set")
         return out_l if isinstance(node, ast.ListComp) else tuple(out_l)
 
+    PURE = {
+        "range": range, "len": len, "int": int, "str": str, "float": float, "tuple": tuple, "list": list, "set": set,
+        "frozenset": frozenset, "bytes": bytes, "chr": chr, "ord": ord, "min": min, "max": max, "abs": abs, "sorted": sorted,
+        "pow": pow, "bool": bool, "zip": lambda *a: list(zip(*a)), "enumerate": lambda *a, **k: list(enumerate(*a, **k)),
+        "reversed": lambda x: list(reversed(x)), "sum": sum, "any": any, "all": all, "divmod": divmod, "round": round, "repr": repr,
+        "hex": hex, "bin": bin, "format": format,
+    }
+    PURE_METHODS = {"join", "format", "items", "keys", "values", "get", "upper", "lower", "encode", "decode", "zfill", "rjust", "ljust",
+                    "replace", "split", "rsplit", "strip", "lstrip", "rstrip", "startswith", "endswith", "copy", "title", "capitalize",
+                    "to_bytes", "hex", "count", "index", "bit_length"}
+
     def _call(self, mod, node, env, local):
         fname = norm(node.func)
-        args = [self.eval(mod, a, env, local) for a in node.args]
-        if node.keywords or any(isinstance(a, Unknown) for a in args):
+        args = []
+        for a in node.args:
+            if isinstance(a, ast.Starred):
+                v = self.eval(mod, a.value, env, local)
+                if isinstance(v, Unknown):
+                    return Unknown(f"call {fname}")
+                args.extend(list(v))
+            else:
+                args.append(self.eval(mod, a, env, local))
+        kwargs = {}
+        for k in node.keywords:
+            v = self.eval(mod, k.value, env, local)
+            if k.arg is None:
+                if not isinstance(v, dict):
+                    return Unknown(f"call {fname}")
+                kwargs.update(v)
+            else:
+                kwargs[k.arg] = v
+        if any(isinstance(a, Unknown) for a in args) or any(isinstance(v, Unknown) for v in kwargs.values()):
             return Unknown(f"call {fname}")
-        pure = {
-            "range": range,
-            "len": len,
-            "int": int,
-            "str": str,
-            "float": float,
-            "tuple": tuple,
-            "list": list,
-            "dict": lambda *a: PDict(*a),
-            "set": set,
-            "frozenset": frozenset,
-            "bytes": bytes,
-            "chr": chr,
-            "ord": ord,
-            "min": min,
-            "max": max,
-            "abs": abs,
-            "sorted": sorted,
-            "pow": pow,
-            "bool": bool,
-        }
-        if fname in pure:
+        if fname == "dict":
             try:
-                return pure[fname](*args)
+                src = dict(*args, **kwargs)
+            except Exception:
+                return Unknown("call dict raises")
+            out = PDict(src)
+            for k in out:
+                out.prov[k] = (mod, node.lineno)
+            if args and isinstance(args[0], PDict):
+                out.prov.update(args[0].prov)
+            return out
+        if fname in self.PURE:
+            try:
+                return self.PURE[fname](*args, **kwargs)
             except Exception:
                 return Unknown(f"call {fname} raises")
+        # module-level pure function defined in the package
+        if isinstance(node.func, ast.Name):
+            target = (local or {}).get(node.func.id) if local and node.func.id in local else env.get(node.func.id)
+            if isinstance(target, Ref) and target.kind == "function":
+                return self._apply(target, args, kwargs)
+        # method of a folded constant
+        if isinstance(node.func, ast.Attribute) and node.func.attr in self.PURE_METHODS:
+            recv = self.eval(mod, node.func.value, env, local)
+            if not isinstance(recv, Unknown) and isinstance(recv, (str, bytes, int, dict, list, tuple)):
+                try:
+                    r = getattr(recv, node.func.attr)(*args, **kwargs)
+                except Exception:
+                    return Unknown(f"method {node.func.attr} raises")
+                if node.func.attr in ("items", "keys", "values"):
+                    return list(r)
+                if node.func.attr == "copy" and isinstance(recv, PDict):
+                    out = PDict(r)
+                    out.prov = dict(recv.prov)
+                    return out
+                return r
         return Unknown(f"call {fname}")
+
+    # ------------------------------------------------------------------ pure module-level functions
+    def _apply(self, ref: Ref, args, kwargs, depth=0):
+        """Fold a call of a module-level function whose body is assignments / if / for / return over foldable expressions."""
+        mi = self.repo.modules.get(ref.module)
+        fn = None
+        if mi:
+            for st in mi.tree.body:
+                if isinstance(st, ast.FunctionDef) and st.name == ref.name:
+                    fn = st
+        if fn is None or depth > 4 or fn.decorator_list:
+            return Unknown(f"call {ref.name}")
+        a = fn.args
+        if a.vararg or a.kwarg or a.posonlyargs:
+            return Unknown(f"call {ref.name}: signature")
+        names = [x.arg for x in a.args]
+        env = self.module_env(ref.module)
+        loc = {}
+        defaults = [None] * (len(names) - len(a.defaults)) + list(a.defaults)
+        for n, d in zip(names, defaults):
+            if d is not None:
+                loc[n] = self.eval(ref.module, d, env)
+        for n, d in zip([x.arg for x in a.kwonlyargs], a.kw_defaults):
+            if d is not None:
+                loc[n] = self.eval(ref.module, d, env)
+        if len(args) > len(names):
+            return Unknown(f"call {ref.name}: arity")
+        for n, v in zip(names, args):
+            loc[n] = v
+        for k, v in kwargs.items():
+            if k not in names and k not in [x.arg for x in a.kwonlyargs]:
+                return Unknown(f"call {ref.name}: keyword {k}")
+            loc[k] = v
+        if any(n not in loc for n in names):
+            return Unknown(f"call {ref.name}: missing argument")
+        fuel = [20000]
+        try:
+            r = self._run_block(ref.module, fn.body, env, loc, fuel)
+        except _Unfoldable as err:
+            return Unknown(f"call {ref.name}: {err}")
+        return r[1] if r and r[0] == "return" else None
+
+    def _run_block(self, mod, stmts, env, loc, fuel):
+        for st in stmts:
+            fuel[0] -= 1
+            if fuel[0] < 0:
+                raise _Unfoldable("out of fuel")
+            if isinstance(st, ast.Expr) and isinstance(st.value, ast.Constant):
+                continue
+            if isinstance(st, ast.Return):
+                v = self.eval(mod, st.value, env, loc) if st.value is not None else None
+                if isinstance(v, Unknown):
+                    raise _Unfoldable(v.why)
+                return ("return", v)
+            if isinstance(st, ast.Assign) and all(isinstance(t, ast.Name) for t in st.targets):
+                v = self.eval(mod, st.value, env, loc)
+                if isinstance(v, Unknown):
+                    raise _Unfoldable(v.why)
+                for t in st.targets:
+                    loc[t.id] = v
+                continue
+            if isinstance(st, ast.Assign) and len(st.targets) == 1 and isinstance(st.targets[0], ast.Subscript) and isinstance(st.targets[0].value, ast.Name) and st.targets[0].value.id in loc:
+                k = self.eval(mod, st.targets[0].slice, env, loc)
+                v = self.eval(mod, st.value, env, loc)
+                if isinstance(k, Unknown) or isinstance(v, Unknown):
+                    raise _Unfoldable("item store")
+                loc[st.targets[0].value.id][k] = v
+                continue
+            if isinstance(st, ast.AugAssign) and isinstance(st.target, ast.Name) and st.target.id in loc:
+                v = self._binop(type(st.op), loc[st.target.id], self.eval(mod, st.value, env, loc))
+                if isinstance(v, Unknown):
+                    raise _Unfoldable(v.why)
+                loc[st.target.id] = v
+                continue
+            if isinstance(st, ast.If):
+                c = self.eval(mod, st.test, env, loc)
+                if isinstance(c, Unknown):
+                    raise _Unfoldable(c.why)
+                r = self._run_block(mod, st.body if c else st.orelse, env, loc, fuel)
+                if r:
+                    return r
+                continue
+            if isinstance(st, ast.For) and not st.orelse:
+                it = self.eval(mod, st.iter, env, loc)
+                if isinstance(it, Unknown):
+                    raise _Unfoldable(it.why)
+                for x in list(it):
+                    if isinstance(st.target, ast.Name):
+                        loc[st.target.id] = x
+                    elif isinstance(st.target, (ast.Tuple, ast.List)) and all(isinstance(t, ast.Name) for t in st.target.elts):
+                        for t, v in zip(st.target.elts, x):
+                            loc[t.id] = v
+                    else:
+                        raise _Unfoldable("for target")
+                    r = self._run_block(mod, st.body, env, loc, fuel)
+                    if r:
+                        return r
+                continue
+            if isinstance(st, ast.Pass):
+                continue
+            raise _Unfoldable(f"statement {type(st).__name__}")
+        return None
+
+
+class _Unfoldable(Exception):
+    pass
 
 
 def _same(a, b) -> bool:
